@@ -450,6 +450,71 @@ impl Sweep for Shapes {
     }
 }
 
+/// two stored corpus lines (also with multi-byte text) followed by every
+/// program-level command, then a second command
+struct Sessions {
+    all: bool,
+}
+
+fn commands() -> Vec<&'static str> {
+    vec![
+        "RUN", "RUN 20", "LIST", "LIST 20-", "LIST -10", "DELETE 10", "DELETE 10-20", "RENUM", "RENUM 100,20,5", "RENUM 65529", "RENUM 5,20",
+        "SAVE \"f\"", "LOAD \"f\"", "RUN \"f\"", "NEW", "CLEAR", "CONT", "GOTO 20", "GOSUB 10", "TRON", "20", "15 '€é日", "10 ?\"€€€€\":GOTO 10",
+    ]
+}
+
+impl Sweep for Sessions {
+    fn name(&self) -> String {
+        "stored-lines-then-commands".into()
+    }
+    fn shards(&self) -> usize {
+        corpus().len() + 3
+    }
+    fn crash_is_verdict(&self) -> bool {
+        true
+    }
+    fn run_shard(&self, shard: usize, ctx: &mut Ctx) {
+        let mut lines: Vec<String> = corpus().iter().map(|s| s.to_string()).collect();
+        lines.push("PRINT \"€é日\":GOTO 20:GOSUB 10:ON A GOTO 10,20".into());
+        lines.push("?\"日本語\";:IF A THEN 10 ELSE 20".into());
+        lines.push("REM €€€ GOTO 10".into());
+        let a = &lines[shard];
+        let cmds = commands();
+        let step = if self.all { 1 } else { 4 };
+        for (bi, b) in lines.iter().enumerate() {
+            if !self.all && (bi + shard) % step != 0 && bi < lines.len() - 3 {
+                continue;
+            }
+            for c1 in &cmds {
+                let l10 = format!("10 {}", a);
+                let l20 = format!("20 {}", b);
+                let seq: Vec<&str> = vec![l10.as_str(), l20.as_str(), c1];
+                if ctx.begin(&format!("{:?}", seq)) {
+                    if let Err((sig, detail)) = survive(&seq) {
+                        ctx.violation(&sig, detail);
+                    }
+                }
+                // a second command after RENUM / DELETE / an interrupted RUN
+                if c1.starts_with("RENUM") || c1.starts_with("DELETE") || *c1 == "RUN" {
+                    for c2 in ["RUN", "LIST", "RENUM", "CONT", "GOTO 10"] {
+                        let seq: Vec<&str> = vec![l10.as_str(), l20.as_str(), c1, c2];
+                        if ctx.begin(&format!("{:?}", seq)) {
+                            if let Err((sig, detail)) = survive(&seq) {
+                                ctx.violation(&sig, detail);
+                            }
+                        }
+                    }
+                }
+            }
+            if ctx.done() {
+                return;
+            }
+        }
+        ctx.nontrivial(hash64(&a));
+        ctx.sample();
+    }
+}
+
 // ------------------------------------------------------------------ protocol
 
 #[derive(Clone, Debug, PartialEq)]
@@ -478,9 +543,17 @@ enum Wait {
 struct Protocol {
     acts: Vec<(String, PAct)>,
     depth: usize,
+    /// lines already stored when the search starts
+    preloaded: bool,
 }
 
+const PRELOAD: [&str; 4] = ["10 PRINT \"x\";:GOTO 10", "20 INPUT A,B$:PRINT A;B$", "30 A$=INKEY$:IF A$=\"\" THEN 30", "40 PRINT \"s\";FNZ(1);:RETURN"];
+
 fn protocol(depth: usize) -> Protocol {
+    protocol_from(depth, false)
+}
+
+fn protocol_from(depth: usize, preloaded: bool) -> Protocol {
     let mut acts = vec![];
     for l in [
         "10 PRINT \"x\";:GOTO 10",
@@ -523,7 +596,7 @@ fn protocol(depth: usize) -> Protocol {
     acts.push(("snapshot-drop".into(), PAct::SnapDrop));
     acts.push(("load-ok".into(), PAct::LoadOk(false)));
     acts.push(("load-fail".into(), PAct::LoadFail));
-    Protocol { acts, depth }
+    Protocol { acts, depth, preloaded }
 }
 
 fn loaded() -> Listing {
@@ -535,7 +608,7 @@ fn loaded() -> Listing {
 
 impl SpaceModel for Protocol {
     fn name(&self) -> String {
-        "ui-protocol".into()
+        if self.preloaded { "ui-protocol-from-stored-program".into() } else { "ui-protocol".into() }
     }
     fn action_names(&self) -> Vec<String> {
         self.acts.iter().map(|(n, _)| n.clone()).collect()
@@ -574,6 +647,12 @@ impl Protocol {
                 break;
             }
         }
+        if self.preloaded {
+            for l in PRELOAD {
+                rt.enter(l);
+                let _ = rt.execute(5000);
+            }
+        }
         let mut violations: Vec<(String, String)> = vec![];
         for (i, &ai) in hist.iter().enumerate() {
             let last = i + 1 == hist.len();
@@ -585,7 +664,8 @@ impl Protocol {
                 (PAct::Key(_), Wait::Inkey) => true,
                 (PAct::Exec(_), Wait::Exec) => true,
                 (PAct::LoadOk(_), Wait::Load(_)) | (PAct::LoadFail, Wait::Load(_)) => true,
-                (PAct::Interrupt, Wait::Exec) | (PAct::Interrupt, Wait::Input) => true,
+                // an interrupt may arrive at any time, also while a prompt or a key is awaited
+                (PAct::Interrupt, Wait::Exec) | (PAct::Interrupt, Wait::Input) | (PAct::Interrupt, Wait::Inkey) => true,
                 (PAct::SnapTake, _) => snaps.len() < 2,
                 (PAct::SnapDrop, _) => !snaps.is_empty(),
                 _ => false,
@@ -713,9 +793,11 @@ impl Check for C03 {
             Box::new(Strings { n: tier.pick(5, 7), alpha: sub_alphabet(), label: "numeric-core" }),
             Box::new(TokenSeqs { k: tier.pick(2, 3) }),
             Box::new(Mutants { pairs: tier == Tier::Thorough }),
+            Box::new(Sessions { all: tier == Tier::Thorough }),
             Box::new(SpaceSweep { model: protocol(tier.pick(6, 8)) }),
+            Box::new(SpaceSweep { model: protocol_from(tier.pick(6, 8), true) }),
         ];
-        v.truncate(6);
+        v.truncate(8);
         v
     }
     fn meta(&self, tier: Tier) -> Meta {
